@@ -461,3 +461,25 @@ Proof. split; vm_compute; reflexivity. Qed.
 Example decode_point_example :
   decode_point (1 :: le_bytes 8 4607182418800017408 ++ le_bytes 8 0 ++ le_bytes 8 0) = Ok (4607182418800017408, 0, 0).
 Proof. vm_compute. reflexivity. Qed.
+
+(** * A decoded Cell is not always usable (finding on the unchanged tree)
+    Cell.Decode accepts any 8 bytes; an id whose top three bits are 6 or 7 has no face, and
+    RectBound indexes the 6-row axis table with it. *)
+Lemma decode_usable_cell_refuted :
+  exists bs id, bytes_ok bs /\ decode_cell bs = Ok id /\ cell_rect_bound_axes id = Panic.
+Proof.
+  exists [72; 188; 220; 92; 34; 192; 91; 244]. eexists. split; [|split].
+  - repeat constructor; unfold byte_ok; lia.
+  - vm_compute. reflexivity.
+  - vm_compute. reflexivity.
+Qed.
+(** valid ids are fine *)
+Lemma cell_rect_bound_axes_valid id : 0 <= id < 6 * 2 ^ 61 -> cell_rect_bound_axes id <> Panic.
+Proof.
+  intros H. unfold cell_rect_bound_axes, cellid_face. rewrite Z.shiftr_div_pow2 by lia.
+  assert (0 <= id / 2 ^ 61 < 6).
+  { split; [apply Z.div_pos; lia|apply Z.div_lt_upper_bound; lia]. }
+  change s2_NumFaces with 6.
+  destruct (id / 2 ^ 61 <? 0) eqn:E1; [apply Z.ltb_lt in E1; lia|].
+  destruct (6 <=? id / 2 ^ 61) eqn:E2; [apply Z.leb_le in E2; lia|]. discriminate.
+Qed.
